@@ -31,7 +31,7 @@ theorem compOf_eq (c : Comp) (k : String) : compOf c k = Mix.csum c k := rfl
 theorem fracSum_eq (L : Labware) (i : Nat) : fracSum L i = Mix.colSum L.comp i := rfl
 
 /-- What `addStep` with a composition does to the addressed well, without sign conditions. -/
-private theorem addStep_core (L L' : Labware) (i : Nat) (v : Rat) (cB : Comp)
+theorem addStep_core (L L' : Labware) (i : Nat) (v : Rat) (cB : Comp)
     (hL : CompValid L) (hi : i < L.vols.length) (h : L.addStep i v (some cB) = .ok L') :
     L'.vol i = L.vol i + v ∧ (∀ j, j ≠ i → L'.vol j = L.vol j) ∧
     ∀ j k, L'.frac j k =
@@ -175,7 +175,7 @@ theorem frac_range (L : Labware) (i : Nat) (k : String) (hL : CompValid L) (hsum
   rw [← hsum, fracSum_eq]
   exact Mix.fracC_le_colSum _ _ _ hL.nonneg
 
-private theorem compValid_removeStep (L L' : Labware) (i : Nat) (v : Rat) (hL : CompValid L)
+theorem compValid_removeStep (L L' : Labware) (i : Nat) (v : Rat) (hL : CompValid L)
     (h : L.removeStep i v = .ok L') :
     CompValid L' ∧ L'.vols.length = L.vols.length ∧ (∀ j, j ≠ i → L'.vol j = L.vol j) := by
   have hf := Labware.removeStep_fields h
@@ -187,11 +187,11 @@ private theorem compValid_removeStep (L L' : Labware) (i : Nat) (v : Rat) (hL : 
   unfold Labware.vol
   rw [hf.2.1, getD_set_ne _ _ _ _ _ hj]
 
-private theorem vol_nonneg (L : Labware) (j : Nat) (h0 : ∀ x ∈ L.vols, 0 ≤ x) : 0 ≤ L.vol j :=
+theorem vol_nonneg (L : Labware) (j : Nat) (h0 : ∀ x ∈ L.vols, 0 ≤ x) : 0 ≤ L.vol j :=
   Mix.getD_nonneg _ _ h0
 
 /-- The three micro-operations of one transfer step, run to completion. -/
-private theorem exec3 (w w' : World) (s i d j : Nat) (v : Rat) (S : Labware)
+theorem exec3 (w w' : World) (s i d j : Nat) (v : Rat) (S : Labware)
     (hS : w.labs[s]? = some S)
     (h : w.exec [.rm s i v, .loadComp s i, .ad d j v .carry] = (w', none)) :
     ∃ S1 D1 D2, S.removeStep i v = .ok S1 ∧ (w.labs.set s S1)[d]? = some D1 ∧
